@@ -968,6 +968,72 @@ fn case_connect_then_gone(o: &mut Out, id: &str, wv: u8, sv: u8, with_will: bool
     o.st.nontrivial(&("connect-gone", wv, sv, with_will));
 }
 
+/// C16: a willing client (client id `cid`, may be empty = broker-assigned) ends either by an
+/// MQTT DISCONNECT with the given reason (the will must NOT be published, whatever the reason:
+/// "if the client sent DISCONNECT first, the will is never published") or, with `reason = None`,
+/// by closing the stream (the will must be published exactly once)
+fn case_will_simple(o: &mut Out, id: &str, wv: u8, sv: u8, cid: &str, reason: Option<&str>) {
+    o.case(id);
+    o.op("new 10 none");
+    o.op(&format!("conn 0 {sv} {}", connect_ctf(sv, KA_LONG, "s0", true, "N", None, None)));
+    o.op(&format!("send 0 {}", sub_ctf(1, "w/#", 1, None)));
+    o.op("sync 0");
+    o.op(&format!("conn 1 {wv} {}", connect_ctf(wv, KA_LONG, cid, true, "N", Some(("w/1", "gone", 1, false, "N")), None)));
+    match reason {
+        Some(r) => {
+            o.op(&format!("send 1 disconnect {r} N"));
+            o.op("sync 1");
+        }
+        None => {
+            o.op("shut 1");
+            o.op("eof 1");
+        }
+    }
+    o.op("join 1");
+    o.op("sync 0");
+    o.op("end");
+    o.st.nontrivial(&("will-simple", wv, sv, cid.to_string(), reason.map(|r| r.to_string())));
+}
+
+/// C20: broker topic aliases across UNSUBSCRIBE / re-SUBSCRIBE. Subscriber (MQTT 5,
+/// `topic_alias_max`) on the plain filters `t/a` and `t/b`; traffic, unsubscribe `t/a`, traffic on
+/// `t/b` (which may take over the freed alias), re-subscribe `t/a`, traffic on both: every message
+/// must resolve to its own topic
+fn case_alias_resubscribe(o: &mut Out, id: &str, pv: u8, alias_max: u16, qos: u8) {
+    o.case(id);
+    o.op("new 10 none");
+    o.op(&format!("conn 0 5 {}", connect_ctf(5, KA_LONG, "sub", true, &format!("S[34=w{alias_max}]"), None, None)));
+    o.op(&format!("send 0 {}", sub_ctf(1, "t/a", qos, None)));
+    o.op(&format!("send 0 {}", sub_ctf(2, "t/b", qos, None)));
+    o.op("sync 0");
+    o.op(&format!("conn 1 {pv} {}", connect_ctf(pv, KA_LONG, "pub", true, "N", None, None)));
+    let mut n = 0u16;
+    let mut publish = |o: &mut Out, topic: &str| {
+        n += 1;
+        o.op(&format!("send 1 {}", pub_ctf(0, 0, topic, &format!("m{n}"), "N")));
+        o.op("sync 1");
+        o.op("sync 0")
+    };
+    publish(o, "t/a");
+    publish(o, "t/b");
+    publish(o, "t/a");
+    o.op(&format!("send 0 unsubscribe 3 N {}", hx("t/a")));
+    o.op("sync 0");
+    publish(o, "t/b");
+    publish(o, "t/a"); // nobody subscribed: nothing arrives
+    o.op(&format!("send 0 {}", sub_ctf(4, "t/a", qos, None)));
+    o.op("sync 0");
+    let r = publish(o, "t/a");
+    if r.starts_with("ok") {
+        publish(o, "t/b");
+        publish(o, "t/a");
+    } else {
+        o.op("join 0");
+    }
+    o.op("end");
+    o.st.nontrivial(&("alias-resub", pv, alias_max, qos));
+}
+
 /// C16 (server part): willing client W on a `wv` listener, `nsub` subscribers to the will topic,
 /// W ends by `cause`; with a will delay the same client id may reconnect before it elapses.
 #[allow(clippy::too_many_arguments)]
@@ -1142,6 +1208,25 @@ fn case_rejected(o: &mut Out, id: &str, ver: u8, auth: &str, login: Option<(&str
     o.st.nontrivial(&("rejected", ver, auth.to_string(), login.map(|l| l.1.to_string()), cid.to_string(), ka, clean));
 }
 
+/// C19: a CONNECT whose protocol level is not the listener's (written with the listener's layout)
+/// must not become a session; also with an empty client id
+fn case_wrong_level(o: &mut Out, id: &str, ver: u8, level: u8) {
+    o.case(id);
+    o.op("new 3 none");
+    for (c, cid) in ["c", ""].iter().enumerate() {
+        let ctf = connect_ctf(ver, 10, cid, true, "N", None, None).replacen(&format!("connect {ver} "), &format!("connect {level} "), 1);
+        let r = o.op(&format!("conn {c} {ver} {ctf}"));
+        if r.starts_with("connack") {
+            o.op(&format!("sync {c}"));
+        } else {
+            o.op(&format!("eof {c}"));
+            o.op(&format!("join {c}"));
+        }
+    }
+    o.op("end");
+    o.st.nontrivial(&("wrong-level", ver, level));
+}
+
 /// regression: a client id refused by the router (limit reached) must not leave a will handler behind
 /// that breaks the next CONNECT with that id
 fn case_stale_handler(o: &mut Out, id: &str, ver: u8) {
@@ -1196,6 +1281,13 @@ fn sweep(o: &mut Out) {
     }
     for n in [121usize, 122, 123, 124, 125, 126] {
         forms.push(format!("fwd publish 0 0 0 {} 0 {} N", hx(&format!("t/{}", pad(n - 2))), hx("p")));
+    }
+    // QoS 0 forwards of messages published at QoS 1/2: the publisher's packet id is still in the struct
+    for pkid in [1u32, 5, 65535] {
+        for n in [1usize, 120, 121, 122, 123] {
+            forms.push(format!("fwd publish 0 0 0 {} {pkid} {} N", hx("t/a"), hx(&pad(n))));
+        }
+        forms.push(format!("fwd publish 0 0 0 {} {pkid} {} S[1=b1;11=v7]", hx("t/a"), hx("m")));
     }
     for sp in [0, 1] {
         forms.push(format!("ack connack {sp} Success S[34=w4096]"));
@@ -1309,6 +1401,29 @@ fn run_inner(o: &Opts) {
         match profile.as_str() {
             "c20" => {
                 // first (small cases, and the driver's report budget goes to them first)
+                // publisher QoS 1 towards a QoS 0 subscription (the stored publish keeps the
+                // publisher's packet id; the forward has QoS 0) on every version pair
+                for (pv, sv) in [(4u8, 4u8), (5, 4), (4, 5), (5, 5)] {
+                    for n in [2usize, 121, 122, 123] {
+                        if mine() {
+                            let id = format!("down{pv}{sv}-{n}");
+                            let pubs: Vec<(u8, String, String, String)> =
+                                (0..3).map(|i| (1u8, "t/a".to_string(), if i == 0 { pad(n) } else { format!("m{i}") }, "N".to_string())).collect();
+                            run_twice(&mut out, &|o| case_custom(o, &id, pv, sv, 0, None, 0, "t/a", &pubs));
+                        }
+                    }
+                }
+                // broker aliases across unsubscribe / re-subscribe
+                for pv in [4u8, 5] {
+                    for alias_max in [1u16, 2] {
+                        for qos in [0u8, 1] {
+                            if mine() {
+                                let id = format!("realias{pv}-a{alias_max}-q{qos}");
+                                run_twice(&mut out, &|o| case_alias_resubscribe(o, &id, pv, alias_max, qos));
+                            }
+                        }
+                    }
+                }
                 subid_cases(&mut out, &mut mine, thorough);
                 boundary_cases(&mut out, &mut mine, thorough);
                 for (pv, sv) in [(4u8, 4u8), (4, 5), (5, 4), (5, 5)] {
@@ -1358,6 +1473,25 @@ fn run_inner(o: &Opts) {
                             if mine() {
                                 let id = format!("connectgone{wv}{sv}-w{}", with_will as u8);
                                 run_twice(&mut out, &|o| case_connect_then_gone(o, &id, wv, sv, with_will));
+                            }
+                        }
+                        // DISCONNECT with every kind of reason (MQTT 5 only has reasons), named
+                        // and broker-assigned client id; and the same clients just hanging up
+                        let reasons: &[&str] = if wv == 5 {
+                            &["NormalDisconnection", "DisconnectWithWillMessage", "MalformedPacket", "UnspecifiedError", "ServerShuttingDown"]
+                        } else {
+                            &["NormalDisconnection"]
+                        };
+                        for cid in ["w", ""] {
+                            for (k, r) in reasons.iter().enumerate() {
+                                if mine() {
+                                    let id = format!("disc{wv}{sv}-{}-r{k}", if cid.is_empty() { "assigned" } else { "named" });
+                                    run_twice(&mut out, &|o| case_will_simple(o, &id, wv, sv, cid, Some(r)));
+                                }
+                            }
+                            if mine() {
+                                let id = format!("hangup{wv}{sv}-{}", if cid.is_empty() { "assigned" } else { "named" });
+                                run_twice(&mut out, &|o| case_will_simple(o, &id, wv, sv, cid, None));
                             }
                         }
                     }
@@ -1421,6 +1555,23 @@ fn run_inner(o: &Opts) {
                                 }
                             }
                         }
+                    }
+                    // each metacharacter at the first, a middle and the last position of the client id
+                    for ch in ['+', '$', '#', '/'] {
+                        for cid in [format!("{ch}dev1"), format!("dev{ch}1"), format!("dev1{ch}"), format!("{ch}")] {
+                            if mine() {
+                                let id = format!("meta{ver}-{}", hx(&cid));
+                                run_twice(&mut out, &|o| case_rejected(o, &id, ver, "none", None, &cid, 10, true));
+                            }
+                        }
+                    }
+                    // a CONNECT of the other protocol level on this listener (client-side encoder of
+                    // this listener's version, level byte of the other one)
+                    // (only the 3.1.1 client encoder can write a foreign level byte; both listeners
+                    // get every level x layout from `vh admit`)
+                    if ver == 4 && mine() {
+                        let id = "level5-on-4".to_string();
+                        run_twice(&mut out, &|o| case_wrong_level(o, &id, 4, 5));
                     }
                     if mine() {
                         let id = format!("stale{ver}");
